@@ -17,9 +17,16 @@
   component) and `sh` (objects that every thread holding a reference reads and writes: a scoped value, an alru cache).
   `gStep kg perf t op g` is the operation `op` performed by thread `t` on that ONE state.  How thread `t` indexes the
   carriers (`kg.slot t`) and which thread component it puts into a deduplicate key (`kg.key t`) are PARAMETERS
-  (`Keying`): the library as written is `Keying.real` (both the identity - CPython's threading.local and
-  `threading.current_thread()`); a library whose deduplicate key lacks the thread is `Keying.noThreadInKey`, one
-  whose thread-local holders became module state is `Keying.moduleState`.
+  (`Keying`): the library as written, run by threads created through `threading.Thread`, is `Keying.real` (CPython's
+  threading.local gives every thread its own slot, `threading.current_thread()` is a distinct object per thread);
+  `Keying.cpython aliens` is the library as written when some threads were NOT created through `threading.Thread`
+  (`_thread.start_new_thread`, threads of C extensions): for those `current_thread()` is the `_DummyThread` that CPython
+  <= 3.12 caches PER OS THREAD IDENT, so two such threads that get the same ident one after the other put the same
+  thread component into their deduplicate keys; a library whose deduplicate key lacks the thread is
+  `Keying.noThreadInKey`, one whose thread-local holders became module state is `Keying.moduleState`.
+  The state the threads start from is a parameter too (`gRunFrom .. g₀`): `GState.start modes` is the process in which
+  the threads listed in `modes` were started with a COPY of their creator's context (`contextvars.copy_context().run`,
+  which is what `asyncio.to_thread` does) and so begin with the creator's asyncio-mode flag instead of the default False.
 
   That `gStep` does not let threads interfere is NOT built into its shape - it is a theorem (Theorems/C16.lean):
   `gStep` of thread `t` commutes with the abstraction `abs kg t` to `t`'s own view (its carriers + its slice of the
@@ -107,8 +114,14 @@ def TL.init : TL :=
     dbg := [], stats := [], counter := 0, nextTok := 0, pids := [], cbs := [], amode := false, amodeSaved := [],
     svSaved := [] }
 
-/-- objects shared BY DESIGN by every thread that holds a reference to them (outside the statement of C16, modelled so
-    that the restriction is explicit): one `AsyncScopedValue` and the closure cache of one `alru_cache` function -/
+/-- a thread whose context is a copy of its creator's (`Thread(target=ctx.run, ..)`, `asyncio.to_thread`): the
+    ContextVar `_asyncio_mode` starts with the creator's value `m`; there is no Token to reset it with.  The
+    threading.local holders are untouched by a context copy. -/
+def TL.initM (m : Bool) : TL := { TL.init with amode := m }
+
+/-- objects shared BY DESIGN by every thread that holds a reference to them: one `AsyncScopedValue` and the closure
+    cache of one `alru_cache` function.  The model mirrors the code (one value for all threads); the observer `spec`
+    REPORTS a thread whose records differ from its run alone because of them (`interference:shared-object`). -/
 structure Shared where
   sv : Nat               -- AsyncScopedValue._value          (scoped_value.py:35-43)
   lru : List Nat         -- keys in the `cache` closure variable of alru_cache's decorator (tools.py:230, maxsize never reached)
@@ -378,9 +391,21 @@ structure Keying where
   slot : ThreadId → Nat
   key : ThreadId → Nat
 
-/-- the library as written: threading.local / ContextVar give every thread its own slot, `threading.current_thread()`
-    is part of `cache_key` (tools.py:349-350) -/
-def Keying.real : Keying := { slot := id, key := id }
+/-- the library as written, all threads created through `threading.Thread`: threading.local / ContextVar give every
+    thread its own slot, `threading.current_thread()` - a distinct Thread object per thread, alive as long as a key
+    holds it - is part of `cache_key` (tools.py:349-350).  (Thread objects are the even numbers, see `Keying.cpython`.) -/
+def Keying.real : Keying := { slot := id, key := fun t => 2 * t }
+
+/-- the library as written when the threads listed in `aliens` (thread ↦ OS thread ident) were not created through
+    `threading.Thread`: `threading.current_thread()` answers `_active[get_ident()]`, and for such a thread that is a
+    `_DummyThread` created on first use and never removed (CPython <= 3.12) - ONE object per ident (odd numbers),
+    whoever the thread on that ident is.  threading.local is per thread in all cases. -/
+def Keying.cpython (aliens : List (ThreadId × Nat)) : Keying :=
+  { slot := id, key := fun t => match alookup t aliens with | some i => 2 * i + 1 | none => 2 * t }
+
+/-- no two threads that were not created through `threading.Thread` had the same OS thread ident (decidable) -/
+def identsDistinct (aliens : List (ThreadId × Nat)) : Bool :=
+  aliens.all fun a => aliens.all fun b => a.2 != b.2 || a.1 == b.1
 /-- a library whose `cache_key` lacks the thread (for the necessity theorem) -/
 def Keying.noThreadInKey : Keying := { slot := id, key := fun _ => 0 }
 /-- a library whose thread-local holders are plain module state (for the necessity theorem) -/
@@ -406,11 +431,32 @@ def gStep (kg : Keying) (perf : Bool) (t : ThreadId) (op : Op) (g : GState) : GS
 
 abbrev Rec := Op × Obs
 
-/-- all threads under a schedule, from the initial process state: final state and global record list -/
-def gRun (kg : Keying) (perf : Bool) (sch : List (ThreadId × Op)) : GState × List (ThreadId × Rec) :=
-  runGlobal (gStep kg perf) GState.init sch
+/-- all threads under a schedule, from process state `g₀`: final state and global record list -/
+def gRunFrom (kg : Keying) (perf : Bool) (g₀ : GState) (sch : List (ThreadId × Op)) : GState × List (ThreadId × Rec) :=
+  runGlobal (gStep kg perf) g₀ sch
 
-/-- the records of all threads under a schedule (the library as written) -/
+/-- ... from the initial process state -/
+def gRun (kg : Keying) (perf : Bool) (sch : List (ThreadId × Op)) : GState × List (ThreadId × Rec) :=
+  gRunFrom kg perf GState.init sch
+
+/-- the process in which the threads listed in `modes` (thread ↦ asyncio-mode flag of its creator at the time of the
+    copy) were started with a copied context; every other thread starts with a fresh one.  (For keyings with
+    `slot = id`.) -/
+def GState.start (modes : List (ThreadId × Bool)) : GState :=
+  { locals := modes.map fun p => (p.1, TL.initM p.2), tasks := [], sh := Shared.init }
+
+/-- the records of all threads under a schedule: the library as written, threads `aliens` not created through
+    `threading.Thread`, threads `modes` started with a copied context -/
+def interW (aliens : List (ThreadId × Nat)) (modes : List (ThreadId × Bool)) (perf : Bool)
+    (sch : List (ThreadId × Op)) : List (ThreadId × Rec) :=
+  (gRunFrom (Keying.cpython aliens) perf (GState.start modes) sch).2
+
+/-- the records of thread `t` performing `ops` while no other thread does anything (same kind of thread, same start) -/
+def aloneW (aliens : List (ThreadId × Nat)) (modes : List (ThreadId × Bool)) (perf : Bool) (t : ThreadId)
+    (ops : List Op) : List Rec :=
+  proj t (interW aliens modes perf (ops.map fun op => (t, op)))
+
+/-- the records of all threads under a schedule (the library as written, `threading.Thread` threads, fresh contexts) -/
 def inter (perf : Bool) (sch : List (ThreadId × Op)) : List (ThreadId × Rec) := (gRun Keying.real perf sch).2
 
 /-- the records of thread `t` performing `ops` while no other thread does anything -/
@@ -477,9 +523,30 @@ def stratGlobal (gstep : ThreadId → Op → GState → GState × Obs) (ss : Thr
 /-! ## The property C16 as a Boolean predicate over recorded runs (no model state involved):
     `k ≥ 1` threads, one recorded run alone per thread, every record of the concurrent run belongs to one of the `k`
     threads, no record mentions an object of another thread, and for every thread what it did and saw in the
-    concurrent run - up to its first operation on a shared-by-design object - is exactly what it did and saw alone. -/
+    concurrent run is exactly what it did and saw alone.  The comparison is made in two stages so that the clause names
+    what interfered: first the records that cannot legitimately depend on an object the PROGRAM shares between threads
+    (`strictPart`), then everything. -/
 
-/-- the records of a thread before it first touches a shared-by-design object -/
+def isLru : Op → Bool
+  | .lruCall _ => true
+  | _ => false
+
+/-- under COLLECT_PERF_STATS a call of a cached function takes one or two profiler ids depending on hit / miss, so
+    from a thread's first such call on its profiler ids depend on the shared cache: only the records before it are
+    independent of shared objects.  Without profiling all records are kept. -/
+def cut (perf : Bool) (l : List Rec) : List Rec :=
+  if perf then l.takeWhile fun r => !isLru r.1 else l
+
+/-- the records of operations that are not on a shared-by-design object -/
+def priv (l : List Rec) : List Rec := l.filter fun r => !r.1.isShared
+
+/-- the records of a thread that no shared-by-design object can influence (theorem `C16_noninterference_strict`):
+    ALL its operations on scheduler / tasks / debug batches / profiler / deduplicate / asyncio mode / trace, also those
+    it performs after or between uses of a shared object -/
+def strictPart (perf : Bool) (l : List Rec) : List Rec := priv (cut perf l)
+
+/-- the records of a thread before it first touches a shared-by-design object (what the observer compared until the
+    second audit; a prefix of `strictPart`) -/
 def ownPrefix (l : List Rec) : List Rec := l.takeWhile fun r => !r.1.isShared
 
 /-- first difference between two record lists: position and the operation there -/
@@ -489,23 +556,35 @@ def firstDiff : List Rec → List Rec → Nat → Option (Nat × String)
   | _ :: _, [], i => some (i, "missing")
   | [], y :: _, i => some (i, y.1.component)
 
-/-- the first thread (below `k`) whose projection of the concurrent run differs from its run alone -/
-def specFind (aloneRecs : List (List Rec)) (conc : List (ThreadId × Rec)) : Nat → Option (ThreadId × Nat × String)
+/-- the first thread (below `k`) whose concurrent run differs from its run alone in a record that no shared-by-design
+    object can influence, or in the operations it performed -/
+def specFind (perf : Bool) (aloneRecs : List (List Rec)) (conc : List (ThreadId × Rec)) :
+    Nat → Option (ThreadId × Nat × String)
   | 0 => none
   | k + 1 =>
-    match specFind aloneRecs conc k with
+    match specFind perf aloneRecs conc k with
     | some r => some r
     | none =>
-      match firstDiff (ownPrefix (aloneRecs.getD k [])) (ownPrefix (proj k conc)) 0 with
+      match firstDiff (strictPart perf (aloneRecs.getD k [])) (strictPart perf (proj k conc)) 0 with
       | some (i, c) => some (k, i, c)
-      | none => none
+      | none =>
+        if (aloneRecs.getD k []).map (·.1) = (proj k conc).map (·.1) then none else some (k, 0, "operations")
+
+/-- the first thread (below `k`) whose concurrent run differs from its run alone at all -/
+def fullFind (aloneRecs : List (List Rec)) (conc : List (ThreadId × Rec)) : Nat → Option ThreadId
+  | 0 => none
+  | k + 1 =>
+    match fullFind aloneRecs conc k with
+    | some r => some r
+    | none => if aloneRecs.getD k [] = proj k conc then none else some k
 
 /-- the first record whose observation mentions another thread's object: the component of its operation -/
 def foreignIn (l : List Rec) : Option String :=
   (l.find? fun r => r.2 == Obs.foreign).map fun r => r.1.component
 
-/-- why the recorded runs violate C16 (`none` = they do not) -/
-def specCheck (k : Nat) (aloneRecs : List (List Rec)) (conc : List (ThreadId × Rec)) : Option String :=
+/-- everything except the last stage: why the recorded runs violate C16 for a reason that is NOT an object the program
+    shares between its threads (`none` = they do not) -/
+def specCheckOwn (perf : Bool) (k : Nat) (aloneRecs : List (List Rec)) (conc : List (ThreadId × Rec)) : Option String :=
   if k = 0 then some "no-threads"
   else if aloneRecs.length ≠ k then some "alone-runs-missing"
   else if conc.any (fun p => decide (k ≤ p.1)) then some "record-of-unknown-thread"
@@ -515,16 +594,31 @@ def specCheck (k : Nat) (aloneRecs : List (List Rec)) (conc : List (ThreadId × 
     match aloneRecs.findSome? foreignIn with
     | some c => some ("observes-foreign-alone:" ++ c)
     | none =>
-      match specFind aloneRecs conc k with
+      match specFind perf aloneRecs conc k with
       | some (_, _, c) => some ("interference:" ++ c)
       | none => none
 
-/-- `Spec.C16` for `k` threads -/
-def spec (k : Nat) (aloneRecs : List (List Rec)) (conc : List (ThreadId × Rec)) : Bool :=
-  (specCheck k aloneRecs conc).isNone
+/-- why the recorded runs violate C16 (`none` = they do not).  The last clause, `interference:shared-object`, is the
+    property AS STATED applied to programs that share an AsyncScopedValue / a cached function between threads: some
+    thread's records differ from its run alone although nothing that `specCheckOwn` looks at does. -/
+def specCheck (perf : Bool) (k : Nat) (aloneRecs : List (List Rec)) (conc : List (ThreadId × Rec)) : Option String :=
+  match specCheckOwn perf k aloneRecs conc with
+  | some c => some c
+  | none =>
+    match fullFind aloneRecs conc k with
+    | some _ => some "interference:shared-object"
+    | none => none
 
-def specClause (k : Nat) (aloneRecs : List (List Rec)) (conc : List (ThreadId × Rec)) : String :=
-  (specCheck k aloneRecs conc).getD "ok"
+/-- `Spec.C16` for `k` threads; `perf` = COLLECT_PERF_STATS of the recorded runs -/
+def spec (perf : Bool) (k : Nat) (aloneRecs : List (List Rec)) (conc : List (ThreadId × Rec)) : Bool :=
+  (specCheck perf k aloneRecs conc).isNone
+
+/-- the part of `spec` that does not concern objects shared by the program -/
+def specOwn (perf : Bool) (k : Nat) (aloneRecs : List (List Rec)) (conc : List (ThreadId × Rec)) : Bool :=
+  (specCheckOwn perf k aloneRecs conc).isNone
+
+def specClause (perf : Bool) (k : Nat) (aloneRecs : List (List Rec)) (conc : List (ThreadId × Rec)) : String :=
+  (specCheck perf k aloneRecs conc).getD "ok"
 
 /-! ## The locality inventory: which objects of asynq/*.py carry the thread-indexed components, and which
     process-wide / shared-by-design objects are known and why.  Compared on every run with an `ast` inventory of the
@@ -554,7 +648,8 @@ def knownShared : List (String × String × String × String) :=
     ("debug", "_use_syntax_highlighting", "global", "process-wide diagnostics configuration"),
     ("debug", "is_attached", "global", "process-wide exception hook installation"),
     ("debug", "original_hook", "global", "process-wide exception hook installation"),
-    -- objects shared BY DESIGN by whoever holds a reference (outside the statement of C16; `Shared`, `Op.isShared`)
+    -- objects shared BY DESIGN by whoever holds a reference (`Shared`, `Op.isShared`; reported by `spec` as
+    -- `interference:shared-object` when a run shows their effect)
     ("scoped_value", "_AsyncScopedValueOverrideContext._target._value", "held",
       "AsyncScopedValue._value: the value lives in the object; threads sharing the object share the value (Shared.sv)"),
     ("scoped_value", "_AsyncPropertyOverrideContext._target.*", "held",
